@@ -320,8 +320,17 @@ func TestVerif_C03(t *testing.T) {
 					x = append([]byte(rapid.SampledFrom([]string{"VF1:", "VF2:", "VF"}).Draw(t, "magic")), x...)
 				}
 				var exts []vfExt
-				for i, n := 0, rapid.IntRange(1, 5).Draw(t, "next"); i < n; i++ {
-					exts = append(exts, vfGenExt(t, i, exts))
+				if rapid.IntRange(0, 9).Draw(t, "deepchain") == 0 {
+					parent := rapid.SampledFrom([]string{"", "text/plain", "application/zip"}).Draw(t, "chainroot")
+					for i, n := 0, rapid.IntRange(6, 30).Draw(t, "chaindepth"); i < n; i++ {
+						e := vfExt{Parent: parent, Mime: fmt.Sprintf("application/x-verif-%d", i), Ext: fmt.Sprintf(".vf%d", i), Pred: vfPred{Kind: "always"}}
+						exts = append(exts, e)
+						parent = e.Mime
+					}
+				} else {
+					for i, n := 0, rapid.IntRange(1, 5).Draw(t, "next"); i < n; i++ {
+						exts = append(exts, vfGenExt(t, i, exts))
+					}
 				}
 				return c03Case{X: x, Limit: vfGenLimit(t, len(x)), Exts: exts, OnResult: rapid.IntRange(0, 3).Draw(t, "onresult") == 0}
 			}})
